@@ -77,7 +77,77 @@ pub fn judge(case: &Case, kf: &ActiveKf) -> Verdict {
         return Verdict::Skipped("numeric_grouping_ambiguity");
     }
     if spec.nondeterministic {
-        return Verdict::Skipped("nondeterministic_by_spec");
+        // An intermediate SKIP/LIMIT without ORDER BY admits many correct outcomes (any
+        // `take` of the n rows may survive). Enumerate them (bounded) and accept the engine's
+        // answer iff it equals one of them.
+        // Some(n>0 matched?) : (matched, outcomes tried); None = cannot be determined
+        let enumerate = |base: &Quirks| -> Option<(bool, usize)> {
+            let mut tried = 0usize;
+            for choice in 0..400usize {
+                let q = Quirks { window_choice: Some(choice), ..base.clone() };
+                match ref_read(&case.g, &case.q, &q) {
+                    Ok(s2) => {
+                        if s2.nondeterministic || s2.numeric_grouping_ambiguity {
+                            return None;
+                        }
+                        tried += 1;
+                        if compare(&rows, &s2, &case.modes).is_ok() {
+                            return Some((true, tried));
+                        }
+                    }
+                    Err(RefErr::Unsupported(m)) if m.contains("window choices exhausted") => {
+                        return if tried == 0 { None } else { Some((false, tried)) };
+                    }
+                    Err(_) => return None,
+                }
+            }
+            None
+        };
+        match enumerate(&Quirks::default()) {
+            Some((true, _)) => return Verdict::Agree(true),
+            None => return Verdict::Skipped("nondeterministic_by_spec"),
+            Some((false, tried)) => {
+                // none of the valid outcomes: explained by a known deviation?
+                let act: Vec<&'static str> = QUIRK_KFS.iter().cloned().filter(|id| kf.has(id)).collect();
+                let mut undetermined = false;
+                for id in &act {
+                    let mut q = Quirks::default();
+                    set_quirk(&mut q, id);
+                    match enumerate(&q) {
+                        Some((true, _)) => return Verdict::Known(id),
+                        None => undetermined = true,
+                        Some((false, _)) => {}
+                    }
+                }
+                if act.len() > 1 {
+                    let mut q = Quirks::default();
+                    for id in &act {
+                        set_quirk(&mut q, id);
+                    }
+                    match enumerate(&q) {
+                        Some((true, _)) => return Verdict::Known("KF-C01-combined"),
+                        None => undetermined = true,
+                        Some((false, _)) => {}
+                    }
+                }
+                if undetermined {
+                    return Verdict::Skipped("nondeterministic_by_spec");
+                }
+                if kf.has("KF-C01-5") && query_has_disconnected_optional(&case.q) {
+                    return Verdict::Skipped("excluded:KF-C01-5(disconnected OPTIONAL MATCH)");
+                }
+                if kf.has("KF-C01-2") && query_varlen_inside_longer_pattern(&case.q) {
+                    return Verdict::Skipped("excluded:KF-C01-2(varlen hop inside a multi-hop pattern)");
+                }
+                if kf.has("KF-C01-11") && query_post_with_step_onto_bound(&case.q) {
+                    return Verdict::Skipped("excluded:KF-C01-11(MATCH after WITH stepping onto a bound node)");
+                }
+                if kf.has("KF-C01-9") && query_closes_varlen_on_bound_var(&case.q) {
+                    return Verdict::Skipped("excluded:KF-C01-9(varlen closing on a bound node)");
+                }
+                return Verdict::Violation(format!("the engine's answer equals none of the {tried} outcomes openCypher allows for the intermediate SKIP/LIMIT without ORDER BY\n  query: {text}\n  engine rows: {:?}", rows.rows.iter().take(8).map(|r| norm::canon_row(r, &case.modes)).collect::<Vec<_>>()));
+            }
+        }
     }
     match compare(&rows, &spec, &case.modes) {
         Ok(()) => {
